@@ -255,6 +255,9 @@ func (ex *Exec) invoke(fr *Frame, recv *IfaceV, it types.Type, m *types.Func, ar
 	if m.Pkg() != nil && strings.HasPrefix(m.Pkg().Path(), "go.uber.org/zap") {
 		return ex.logCall(sig, st, pc)
 	}
+	if lit, ok := ex.tagFacts[recv.Tag.id]; ok {
+		recv = &IfaceV{Tag: lit, Data: recv.Data}
+	}
 	// statically known dynamic type
 	if recv.Tag.isLit() {
 		tn := typeTagNames[recv.Tag.val.Int64()]
